@@ -32,7 +32,13 @@ def verify_function(prop, spec):
         ctx.reset()
         ex.fctx = ctx
         spec.fn(ctx)
-        env = Env()
+        outer = Env()
+        outer.vars.update(ctx.free_vars)  # closure variables of a nested function under contract
+        env = Env(parent=outer) if ctx.free_vars else Env()
+        if ctx.yield_type is not None:
+            from .builtins import empty_seq
+
+            env.vars["__yielded__"] = empty_seq(ctx.yield_type.shape())
         for nm in real_params:
             if nm not in ctx.args:
                 raise Unsupported(f"contract of {spec.qualname} does not declare parameter {nm}")
@@ -59,6 +65,8 @@ def verify_function(prop, spec):
             return
         except (BreakEx, ContinueEx):
             raise Unsupported("break/continue outside a loop")
+        if ctx.yield_type is not None:
+            res = env.vars["__yielded__"]  # a generator's "result" is the sequence it yields
         ex.return_paths.append(list(ex.hyps))
         for nm, fn in ctx.posts:
             ex.oblige(f"{ex.qualname}/post.{nm}", fn(res), "postcondition")
